@@ -158,6 +158,7 @@ func c10Self(c *core.Ctx) {
 type c10GraphCase struct {
 	N     int     `json:"n"`
 	Edges [][]int `json:"edges"`
+	Wrap  []int   `json:"wrap,omitempty"`
 	Base  []int   `json:"base,omitempty"`
 	Reg   []int   `json:"reg,omitempty"`
 }
@@ -175,7 +176,7 @@ func graphWiringSig(o *scen.GraphObs) string {
 		sb.WriteString("|" + n.Nm + ":")
 		for _, f := range []string{"S0", "S1", "S2", "S3", "S4", "S5", "P0", "P1", "P2", "P3"} {
 			if b := scen.NodeOf(n.Slot(f)); b != nil && !scen.IsNilSlot(n.Slot(f)) {
-				sb.WriteString(f + "=" + b.Nm + ",")
+				sb.WriteString(f + "=" + b.Nm + "/" + version(n.Slot(f)) + ",")
 			}
 		}
 		var l []string
@@ -204,6 +205,33 @@ func c10Graphs(c *core.Ctx) {
 			ok = yield(c10GraphCase{N: 3, Edges: e})
 			return ok
 		})
+		if !ok {
+			return
+		}
+		// substitution makes the creation order observable: the order must not depend on enumeration
+		allGraphs(2, []int{scen.ENone, scen.EName, scen.ESlice}, false, func(e [][]int) bool {
+			for w := 1; w < scen.NumWrapPlans*scen.NumWrapPlans; w++ {
+				if ok = yield(c10GraphCase{N: 2, Edges: e, Wrap: []int{w % scen.NumWrapPlans, w / scen.NumWrapPlans}}); !ok {
+					return false
+				}
+			}
+			return true
+		})
+		if !ok {
+			return
+		}
+		allGraphs(3, []int{scen.ENone, scen.EName}, false, func(e [][]int) bool {
+			for node := 0; node < 3; node++ {
+				for plan := 1; plan < scen.NumWrapPlans; plan++ {
+					w := []int{0, 0, 0}
+					w[node] = plan
+					if ok = yield(c10GraphCase{N: 3, Edges: e, Wrap: w}); !ok {
+						return false
+					}
+				}
+			}
+			return true
+		})
 		if !ok || !c.Thorough() {
 			return
 		}
@@ -214,7 +242,7 @@ func c10Graphs(c *core.Ctx) {
 	}
 	Cases(c, gen, func(c *core.Ctx, cs c10GraphCase) {
 		run := func(base, reg []int) (string, *scen.GraphObs) {
-			p := &scen.GraphProg{N: cs.N, Edges: cs.Edges, Base: base, Reg: reg}
+			p := &scen.GraphProg{N: cs.N, Edges: cs.Edges, Base: base, Reg: reg, Wrap: cs.Wrap}
 			o := scen.RunGraph(p, envx.Fixed("", nil))
 			return graphWiringSig(o), o
 		}
@@ -248,8 +276,8 @@ func c10Graphs(c *core.Ctx) {
 				if sig != first {
 					cc := cs
 					cc.Base, cc.Reg = base, reg
-					c.Report("C10/graph/"+core.Hash(cs.N, cs.Edges), "order-dependent",
-						fmt.Sprintf("graph %v: outcome %q under identity orders, %q under iteration order %v / registration order %v", cs.Edges, first, sig, base, reg), cc)
+					c.Report("C10/graph/"+core.Hash(cs.N, cs.Edges, cs.Wrap), "order-dependent",
+						fmt.Sprintf("graph %v wrap plan %v: outcome %q under identity orders, %q under iteration order %v / registration order %v", cs.Edges, cs.Wrap, first, sig, base, reg), cc)
 					return
 				}
 			}
